@@ -510,6 +510,53 @@ def r1410(ctx):
     return n
 
 
+def r1411(ctx):
+    """Auxiliary files kept with a path: in PathStorage._move_path the entry added to the
+    source -> destination table under `os.path.isfile(X)` is the entry *of X* (key X, destination
+    with X's base name under target_dir). Writing under another key re-points an entry that is
+    already in the table - the trajectory file itself - to the auxiliary file's name."""
+    rid = "R-14.11"
+    tree = ctx.tree
+    f = tree.func(FORMATTER, "PathStorage._move_path")
+    fl = flow_of(f)
+    cfg = fl.cfg
+    # the table: second element unpacked from _generate_file_names(...)
+    table = None
+    for n in walk_local(f):
+        if isinstance(n, ast.Assign) and isinstance(n.targets[0], ast.Tuple) and len(n.targets[0].elts) == 2 and isinstance(n.value, ast.Call) and last_name(n.value) == "_generate_file_names":
+            table = n.targets[0].elts[1].id if isinstance(n.targets[0].elts[1], ast.Name) else None
+    if table is None:
+        raise AnalysisError("R-14.11: the source -> destination table of _move_path was not found")
+    stores = [n for n in walk_local(f) if isinstance(n, ast.Assign) and any(isinstance(t, ast.Subscript) and isinstance(t.value, ast.Name) and t.value.id == table for t in n.targets)]
+    n_ok = 0
+    for st in stores:
+        t = next(t for t in st.targets if isinstance(t, ast.Subscript))
+        at = cfg.node_of(st)
+        tested = []
+        for e, tr, _ in cfg.guards(at):
+            if tr and isinstance(e, ast.Call) and ast.unparse(e.func) in ("os.path.isfile", "os.path.exists") and e.args:
+                tested.append(e.args[0])
+        if not tested:
+            continue
+        n_ok += 1
+        key = ast.unparse(t.slice)
+        subj = [ast.unparse(x) for x in tested]
+        if key in subj:
+            # destination carries the tested file's own base name
+            kdef, _ = deref(fl, t.slice, at)
+            vtxt = ast.unparse(deref(fl, st.value, at)[0])
+            base_names = {x.id for x in ast.walk(kdef) if isinstance(x, ast.Name)} if isinstance(kdef, ast.AST) else set()
+            dest_names = {x.id for x in ast.walk(deref(fl, st.value, at)[0]) if isinstance(x, ast.Name)}
+            if "target_dir" in vtxt and (base_names & dest_names):
+                ctx.ok(rid, st, f"the auxiliary file `{key}` whose existence was tested is the one registered, with its own name under target_dir")
+            else:
+                ctx.bad(rid, st, f"the destination registered for `{key}` is `{vtxt[:60]}`: not that file's own name under the path's directory", construct=f"_move_path: destination of {key}")
+        else:
+            ctx.bad(rid, st, f"_move_path tests that `{subj[0]}` exists but registers the move under the key `{key}`: an entry that is already in the table (the trajectory file of the path) is re-pointed to the auxiliary file's name, the trajectory is moved under the wrong name, the auxiliary file is left behind, and the live path / traj.txt name a file that no longer exists", construct=f"_move_path: isfile({subj[0]}) but {table}[{key}] = ...")
+    if n_ok == 0:
+        raise AnalysisError("R-14.11: no registration of an auxiliary file under an existence test found in _move_path")
+
+
 def run(ctx):
     ctx.rule("R-14.5", "path-file writers write values as they are: 0.0 is never mistaken for a missing value", floor=1)
     ctx.rule("R-14.7", "the text files of a stored path are opened for writing from scratch (load_path reads the first block only)", floor=1)
@@ -528,6 +575,8 @@ def run(ctx):
     ctx.attempt(r148, ctx)
     ctx.rule("R-14.10", "one row per frame in traj.txt / order.txt / energy.txt (rows are assigned to frames by position when read back)", floor=3)
     ctx.attempt(r1410, ctx)
+    ctx.rule("R-14.11", "auxiliary files kept with a path are registered under their own name (the file tested with isfile is the key that is added)", floor=1)
+    ctx.attempt(r1411, ctx)
     ctx.rule("R-14.9", "per-iteration data of the storing / loading loops is not taken from an earlier iteration (a local defined only on some paths of a loop and read on all)", floor=5)
     from .shared import stale_iteration_value
     ctx.attempt(stale_iteration_value, ctx, "R-14.9", [FORMATTER, PATH], None, " (a frame of the stored path is given another frame's file reference, so the live path no longer matches what load_path reads back)")
@@ -536,6 +585,7 @@ def run(ctx):
 
 
 VARIANTS = [
+    B("c14-aux-file-registered-under-trajectory-key", FORMATTER, "                        source[fpath] = os.path.join(target_dir, new_fname)", "                        source[source_file] = os.path.join(target_dir, new_fname)", "R-14.11", control=True, why="seeded C14_i"),
     B("c14-energy-row-skipped-for-empty-frame", FORMATTER, "                energy[key] = getattr(phasepoint, key, None)\n            yield self.apply_format(i, energy)", "                energy[key] = getattr(phasepoint, key, None)\n            if all(v is None for v in energy.values()):\n                continue\n            yield self.apply_format(i, energy)", "R-14.10", control=True, why="seeded C14_h"),
     B("c14-destination-from-earlier-frame", FORMATTER, "            source[pos_file] = dest\n        dest = source[pos_file]\n        new_pos.append((dest, idx))", "            source[pos_file] = dest\n        new_pos.append((dest, idx))", "R-14.9", control=True, why="seeded C14_g"),
     B("c14-load-through-refusing-append", PATH, "        frame.vel_rev = snapshot[3]\n        path.phasepoints.append(frame)", "        frame.vel_rev = snapshot[3]\n        path.append(frame)", "R-14.8", control=True, why="seeded C14_f"),
